@@ -75,6 +75,10 @@ fn condition(truth: bool, style: u8, first: bool) -> Cond {
     let t = truth;
     // negative values are true as well
     match style % 32 {
+        // large values whose low 8/16/32 bits are zero are true as well
+        26 => return Cond::Expr(if t { E::Num(1 << 32) } else { E::bin(BinOp::Sub, E::Num(1 << 32), E::Num(1 << 32)) }),
+        27 => return Cond::Expr(if t { E::bin(BinOp::Shl, E::Num(1), E::Num([8, 16, 32, 40, 62][style as usize / 32 % 5])) } else { E::bin(BinOp::Shr, E::Num(1), E::Num(1)) }),
+        28 => return Cond::Expr(if t { E::bin(BinOp::And, E::sym("ce2"), E::Num(0x100)) } else { E::bin(BinOp::And, E::sym("ce2"), E::Num(0x200)) }),
         29 => return Cond::Expr(if t { E::num(-1) } else { E::Num(0) }),
         30 => return Cond::Expr(if t { E::sym("ce3") } else { E::sym("ce1") }),
         31 => return Cond::Expr(E::bin(BinOp::Sub, E::sym("ce0"), E::Num(if t { 9 } else { 5 }))),
